@@ -11,7 +11,7 @@ All inputs of the stated shape are covered when every feasible path has been exp
 """
 import re
 import z3
-from mirparse import (Func, Unsupported, parse_functions, parse_statement, parse_terminator, split_top)
+from mirparse import (Func, Unsupported, parse_functions, parse_statement, parse_terminator, split_top, parse_allocs)
 
 
 class Panic(Exception):
@@ -220,8 +220,11 @@ class Program:
         self.closures = {}
         self.enums = {}      # enum name -> {variant name: discriminant}
         self.impl_type = {}  # 'file:line' -> type name of the impl block
+        self.allocs = {}
 
-    def load_mir(self, text):
+    def load_mir(self, text, with_allocs=False):
+        if with_allocs:
+            self.allocs.update(parse_allocs(text))
         fns = parse_functions(text)
         for name, tup in fns.items():
             self.raw[name] = tup
@@ -755,6 +758,9 @@ class Executor:
 
     def const(self, txt):
         txt = txt.strip()
+        cm0 = self.models.const(txt)
+        if cm0 is not None:
+            return cm0
         m = re.match(r'^(-?\d+)_(u8|u16|u32|u64|usize|u128|i8|i16|i32|i64|isize|i128)$', txt)
         if m:
             return mk_int(int(m.group(1)), m.group(2))
@@ -781,6 +787,9 @@ class Executor:
             return Opaque('fn:' + (mm.group(1).strip() if mm else t))
         if ('const ' + txt) in self.prog.raw:
             return self.call('const ' + txt, [])
+        m = re.match(r'^\{(alloc\d+): &\[(.*); (\d+)\]\}$', txt)
+        if m and m.group(1) in self.prog.allocs:
+            return Ref(Cell(self.decode_alloc(self.prog.allocs[m.group(1)], m.group(2), int(m.group(3)))))
         m = re.search(r'::(promoted\[\d+\])$', txt)
         if m and getattr(self, '_fstack', None):
             # a promoted constant of the function being executed (use site and definition print the impl path differently)
@@ -802,10 +811,32 @@ class Executor:
         m = re.match(r'^(?:[\w<>\', &\[\]()]*::)*(\w+)(?:::<.*>)?::(\w+)$', txt)
         if m:
             return Agg(m.group(1), m.group(2), [])
-        cm = self.models.const(txt)
-        if cm is not None:
-            return cm
+        if re.match(r'^[A-Z]\w*$', txt):
+            return Agg(txt, None, [])      # unit struct value (e.g. an error marker type)
         raise Unsupported(f'constant {txt!r}')
+
+    def decode_alloc(self, data, elem_ty, count):
+        """static array of integers / tuples of integers (little endian, natural alignment)"""
+        elem_ty = elem_ty.strip()
+        tys = [t.strip() for t in elem_ty[1:-1].split(',')] if elem_ty.startswith('(') else [elem_ty]
+        if not all(t in INT_TYPES for t in tys):
+            raise Unsupported(f'static of element type {elem_ty}')
+        sizes = [INT_TYPES[t][0] // 8 for t in tys]
+        align = max(sizes)
+        offs = []
+        o = 0
+        for sz in sizes:
+            o = (o + sz - 1) // sz * sz
+            offs.append(o)
+            o += sz
+        stride = (o + align - 1) // align * align
+        if stride * count != len(data):
+            raise Unsupported(f'static layout mismatch for [{elem_ty}; {count}] ({len(data)} bytes)')
+        items = []
+        for i in range(count):
+            vals = [mk_int(int.from_bytes(data[i * stride + off:i * stride + off + sz], 'little'), t) for t, off, sz in zip(tys, offs, sizes)]
+            items.append(Agg('tuple', None, vals) if elem_ty.startswith('(') else vals[0])
+        return Agg('array', None, items)
 
     def rvalue(self, fr, rv, dest_ty=None):
         k = rv[0]
